@@ -252,6 +252,12 @@ class Extractor:
         return self._block(body, 0, env, (), depth)
 
     def _block(self, body, bb, env, path, depth):
+        if depth == 0 and bb in getattr(self, "stop", ()) and path:
+            # a designated cut point (e.g. a loop header reached again): report the state reached so far
+            changed = tuple((p, env[i + 1]) for i, p in enumerate(self._params) if env.get(i + 1) != p)
+            if env.get(LOG):
+                changed += ((LOG, env[LOG]),)
+            return ("state", ("stop", bb), changed)
         self.nodes += 1
         if self.nodes > self.max_nodes:
             raise Unsupported("expression too large in %s" % body.key)
@@ -412,10 +418,11 @@ def params_of(body):
     return tuple(("param", body.local_name(i) or "_%d" % i) for i in range(1, body.argc + 1))
 
 
-def extract_from(prog, body, bb, effects=True, inline=()):
-    """Formula of the code from block `bb` to the return, with every local standing for itself (("local", l)): used
-    for the loop-free tail of a function that contains a loop."""
+def extract_from(prog, body, bb, effects=True, inline=(), stop=()):
+    """Formula of the code from block `bb` to the return (or to a block of `stop`), with every local standing for
+    itself (("local", l)): used for the loop-free tail of a function that contains a loop, or for one loop body."""
     ex = Extractor(prog, inline, effects=effects)
+    ex.stop = set(stop)
     env = {l: ("local", l) for l in range(1, len(body.locals))}
     ex._params = tuple(env[i + 1] for i in range(body.argc))
     return ex._block(body, bb, env, (), 0), ex
@@ -467,6 +474,14 @@ def subst(t, f):
         return ("switch", c, outs, e)
     if k == "agg":
         return ("agg", t[1], tuple(subst(a, f) for a in t[2]))
+    if k == "upd":
+        return ("upd", t[1], t[2], tuple(subst(a, f) for a in t[3]))
+    if k == "with":
+        return ("with", subst(t[1], f), t[2], subst(t[3], f))
+    if k == "state":
+        return ("state", subst(t[1], f), tuple((p_, tuple(subst(c, f) for c in v) if p_ == LOG else subst(v, f)) for p_, v in t[2]))
+    if k in ("downcast", "index"):
+        return (k, subst(t[1], f)) + tuple(subst(x, f) if isinstance(x, tuple) and x and isinstance(x[0], str) else x for x in t[2:])
     return t
 
 
